@@ -12,6 +12,7 @@
   PARTIAL: the second half of the property (a write that raises leaves the specification able to produce the fresh
   file) is about values derived at write time and is checked by the streams `failed-write` / `refused-then-corrected`.
 -/
+import Dlismodel.Proofs.FrameIdx
 import Dlismodel.Proofs.Api
 import Dlismodel.Proofs.ApiSim
 import Dlismodel.Proofs.Dataset
@@ -88,5 +89,18 @@ theorem dataset_name_fresh {taken : List PStr} {name : PStr} {e : Option PStr} {
 
 example : datasetNames [] [([65], none, true), ([65], none, false), ([65], none, true), ([66], some [65], true)] =
     [.ok [65], .ok [65, 95, 95, 49], .ok [65, 95, 95, 49], .error .value] := by decide
+
+/-- … and for the index attributes of a frame: a write refused while they are being derived (an unevenly spaced index in
+high-compatibility mode, after INDEX-MIN / -MAX were assigned) leaves the user's assignments and nothing else -/
+theorem refused_setup_leaves_assignment (hc indexed : Bool) (xs : List Int) (s : FrameIdx) (hc' indexed' : Bool)
+    (xs' : List Int) :
+    (frameSetup hc indexed xs s).1.forget = s.forget ∧
+      frameSetup hc' indexed' xs' (frameSetup hc indexed xs s).1 = frameSetup hc' indexed' xs' s.forget :=
+  ⟨frameSetup_user hc indexed xs s, by rw [frameSetup_fresh, frameSetup_user]⟩
+
+example :
+    let r1 := frameSetup true true [1000, 1001, 1004, 1009] (FrameIdx.user none none none none)
+    r1.2 = .error .runtime ∧ r1.1.imax.held = some 1009 ∧ (frameSetup true true [4, 6, 8] r1.1).1.imax.held = some 8 := by
+  decide +kernel
 
 end Dlis.C20
